@@ -99,7 +99,7 @@
 (declare-fun pathExt (String) String)
 (declare-fun statE (String) ErrV)
 (declare-const osErrNotExist ErrV)
-(define-fun fileMissing ((p String)) Bool (= (statE p) osErrNotExist))
+(define-fun fileMissing ((p String)) Bool (isErr (statE p)))   ; a file exists iff it can be stat'ed (any error: not this file)
 ; Go strings are byte sequences: len, s[i] and s[a:b] count bytes, while the model's strings are code-point sequences.
 ; byteLen / strByte / byteSub are the byte-level operations; they coincide with the code-point ones on ASCII text.
 (declare-fun byteLen (String) Int)
